@@ -1093,4 +1093,58 @@ theorem unstored_never_replayed (auth : Auth) (b₀ : B) (h0 : Pristine b₀) (h
     rw [← hS] at hopen hacc ⊢
     exact (replay_history_exact auth b₀ h0 hst evs hwf now name mid topic qos g hopen hacc hwin).1
 
+/-! ### reading `Spec.replay` -/
+
+/-- "the last N": the N most recent ones, oldest first (cf. `C07.last_n`) -/
+theorem Spec.lastN_eq {α : Type} (n : Nat) (l : List α) : Spec.lastN n l = (l.reverse.take n).reverse := by
+  unfold Spec.lastN
+  rw [List.take_reverse, List.reverse_reverse]
+
+theorem Spec.lastN_length {α : Type} (n : Nat) (l : List α) : (Spec.lastN n l).length = min n l.length := by
+  unfold Spec.lastN
+  rw [List.length_drop]
+  omega
+
+theorem Spec.lastN_sublist {α : Type} (n : Nat) (l : List α) : (Spec.lastN n l).Sublist l :=
+  List.drop_sublist _ _
+
+/-- `last=0`: nothing -/
+theorem Spec.replay_zero (now : Int) (L : List Spec.Rec) (g : Grant) (q : Path) (w : Int × Int) :
+    Spec.replay now L g q (some 0) w = [] := by
+  unfold Spec.replay Spec.lastN Spec.limitOf
+  split
+  · rfl
+  split
+  · rfl
+  simp
+
+/-- what is replayed are matching records of the log, in the order of the log, at most N of them -/
+theorem Spec.replay_sublist (now : Int) (L : List Spec.Rec) (g : Grant) (q : Path) (last : Option Int) (w : Int × Int) :
+    (Spec.replay now L g q last w).Sublist (L.filter (Spec.Rec.matches g.contract q)) ∧
+    (Spec.replay now L g q last w).length ≤ Spec.limitOf last := by
+  unfold Spec.replay
+  split
+  · exact ⟨List.nil_sublist _, Nat.zero_le _⟩
+  split
+  · exact ⟨List.nil_sublist _, Nat.zero_le _⟩
+  exact ⟨Spec.lastN_sublist _ _, by rw [Spec.lastN_length]; exact Nat.min_le_left _ _⟩
+
+theorem Spec.replay_mem {now : Int} {L : List Spec.Rec} {g : Grant} {q : Path} {last : Option Int} {w : Int × Int}
+    {r : Spec.Rec} (h : r ∈ Spec.replay now L g q last w) : r ∈ L ∧ r.matches g.contract q = true :=
+  List.mem_filter.1 ((Spec.replay_sublist now L g q last w).1.subset h)
+
+/-- a `last` at least as large as the number of matching records: all of them -/
+theorem Spec.replay_all (now : Int) (L : List Spec.Rec) (g : Grant) (q : Path) (last : Option Int) (w : Int × Int)
+    (hl : g.has permLoad = true) (hw : Spec.inWindow now w = true)
+    (hn : (L.filter (Spec.Rec.matches g.contract q)).length ≤ Spec.limitOf last) :
+    Spec.replay now L g q last w = L.filter (Spec.Rec.matches g.contract q) := by
+  unfold Spec.replay Spec.lastN
+  rw [hl, hw]
+  simp only [Bool.not_true, Bool.false_eq_true, if_false]
+  rw [Nat.sub_eq_zero_of_le hn, List.drop_zero]
+
+/-- no from/until option (or values outside the accepted range): every second is inside -/
+theorem Spec.inWindow_open (now : Int) (h : 0 ≤ now) : Spec.inWindow now (0, 0) = true := by
+  simp [Spec.inWindow, h]
+
 end Emitter.Broker
